@@ -6,3 +6,4 @@ RULE = "operations: cumsum accumulate diff sort unique; " + fam_raops.RULE
 def run(R, tier, rng):
     fam_raops.run_family(R, tier, rng, set("cumsum accumulate diff sort unique".split()))
     fam_ra2.run_c07(R, tier, rng)
+    fam_ra2.both_variants(lambda R_, t_, r_: fam_ra2.run_sequences(R_, t_, r_, 'scan'))(R, tier, rng)
